@@ -77,7 +77,7 @@ Ltac status_skip s hs HB O W :=
     [ apply mon1_run_skip with (Hi := Hi_req s); [exact HB | unfold Hi_req; nomention]
     | exists hs; split; [reflexivity |];
       match goal with |- only (owner_status ?s') ?hh = true =>
-         replace (owner_status s') with (owner_status s); [exact O|] end;
+         first [exact O | replace (owner_status s') with (owner_status s); [exact O|]] end;
       clear W; unfold owner_status, cclb; proj; bool_lia ] ].
 
 Ltac status_own W := destruct W; unfold owner_status, cclb; proj; bool_lia.
@@ -330,7 +330,7 @@ Ltac cnt_skip s hs HB O W :=
     [ apply mon1_run_skip with (Hi := Hi_lock); [exact HB | unfold Hi_lock; nomention]
     | exists hs; split; [reflexivity |];
       match goal with |- only (owner_cnt ?s') ?hh = true =>
-         replace (owner_cnt s') with (owner_cnt s); [exact O|] end;
+         first [exact O | replace (owner_cnt s') with (owner_cnt s); [exact O|]] end;
       destruct W; unfold owner_cnt; proj; bool_lia ] ].
 
 Lemma fam_cnt n : fam_ok n (WFq n) LWsCnt I_cnt.
